@@ -1,0 +1,41 @@
+//go:build verif
+
+package mq
+
+import "io"
+
+// Hooks for the verification framework in /verif. They are compiled only
+// with the build tag "verif" and give access to the unexported variable
+// byte integer codec, so that all 2^28 values and all short byte sequences
+// can be enumerated without building frames around them.
+
+// VerifVBIAppend encodes v the way the packet encoders do (a dry run with a
+// nil buffer for the width, then the write) and appends the bytes to dst.
+func VerifVBIAppend(dst []byte, v uint32) []byte {
+	x := vbint(v)
+	n := x.fill(_LEN, 0)
+	buf := make([]byte, n)
+	x.fill(buf, 0)
+	return append(dst, buf...)
+}
+
+// VerifVBIWidth returns the width the encoders reserve for v.
+func VerifVBIWidth(v uint32) int { return vbint(v).width() }
+
+// VerifVBIUnmarshal decodes a variable byte integer from the start of data
+// the way buffer.get does: UnmarshalBinary, then advance by width().
+func VerifVBIUnmarshal(data []byte) (value uint64, width int, err error) {
+	var v vbint
+	if err = v.UnmarshalBinary(data); err != nil {
+		return 0, 0, err
+	}
+	return uint64(v), v.width(), nil
+}
+
+// VerifVBIReadFrom decodes a variable byte integer from a stream the way
+// ReadPacket reads the remaining length.
+func VerifVBIReadFrom(r io.Reader) (value uint64, n int64, err error) {
+	var v vbint
+	n, err = v.ReadFrom(r)
+	return uint64(v), n, err
+}
